@@ -4,6 +4,7 @@
    configurations, all message sequences and all oracle behaviours satisfying the stated premises. *)
 From AQ Require Import lib.Base gen.TlsDispatch model.TlsSymbolic.
 From AQ Require Import gen.TlsTranscript proofs.TlsSymbolicP1 proofs.TlsSymbolicP2 proofs.TlsSymbolicP4 proofs.TlsSymbolicP5 proofs.TlsSymbolicP3 proofs.TlsSymbolicPGen.
+From AQ Require Import model.TlsTwoParty proofs.TlsTwoPartyP1 proofs.TlsTwoPartyP2 proofs.TlsTwoPartyP3 proofs.TlsTwoPartyP4 proofs.TlsTwoPartyP5 proofs.TlsTwoPartyP6 proofs.TlsTwoPartyP7.
 
 (* every message sequence, every oracle behaviour (no cryptographic premise needed): a client that reaches
    CLIENT_POST_HANDSHAKE verified a CertificateVerify (advertised algorithm) under the leaf of the certificate
@@ -192,3 +193,73 @@ Print Assumptions version_agreement_partial.
 Theorem premises_satisfiable : exists O, ideal_crypto O /\ codec_ok O.
 Proof. exact (ex_intro _ toyO2 (conj toy2_ideal toy2_codec)). Qed.
 Print Assumptions premises_satisfiable.
+
+(* ================= TWO-PARTY SYSTEM WITH A NETWORK ADVERSARY (model/TlsTwoParty.v) =================================
+   One client Context and one server Context (the step functions above, unchanged; an Alert closes the endpoint as in
+   QuicConnection), joined by a network the adversary controls: a run is any list of events {start, deliver m to the
+   client, deliver m to the server}; adversary_run = every delivered byte string is in the adversary's Dolev-Yao
+   knowledge (honest outputs so far, its own byte strings adv, closed under concatenation / slicing / hash / hmac /
+   hkdf / pub / dh / sign with KNOWN keys and every message builder and parser) AND the symbolic-crypto idealisation
+   dy_sound (HMAC and signature unforgeability, HKDF-Expand / HKDF-Extract / DH secrecy) holds at every knowledge state
+   of the run.  ideal2 = ideal_crypto + codec_ok + cross-algorithm hash injectivity + signature injectivity + codec facts
+   (binders survive the ClientHello round trip, CertificateVerify round trip, framed ClientHello, canonical Finished,
+   message types); sig_pair = the server's certificate belongs to the server's key.
+   secure outs c = what the adversary must not know: full handshake - the client holds THIS server's certificate, and
+   the server's certificate key, the client's and the server's (EC)DHE private keys are unknown; resumed - the PSK is
+   unknown (and the hashed PSK hello is one framed message).
+   There is NO Finished-provenance premise any more: it is fin_provenance, a lemma of the model. *)
+
+(* both complete => same cipher suite, resumption flag, ALPN, early-data verdict; the server's key log is exactly
+   [0-RTT?; s hs; c hs; s ap; c ap] and the same four secrets are in the client's key log with mirrored directions;
+   and the matching conversation below *)
+Theorem both_complete_agree :
+  forall O adv cc sc, ideal2 O -> sig_pair O (hd [] (f_chain sc)) (f_key sc) ->
+  forall tr, adversary_run O adv cc sc tr ->
+    let y := sys_run O cc sc (sys_init cc sc) tr in
+    t_state (y_c y) = CLIENT_POST_HANDSHAKE -> t_state (y_s y) = SERVER_POST_HANDSHAKE ->
+    secure O adv cc sc (y_out y) (y_c y) ->
+    agreement O (y_c y) (y_s y) /\ exists chm ss1 outS, matching O cc sc y chm ss1 outS.
+Proof. exact both_complete_agree_lemma. Qed.
+Print Assumptions both_complete_agree.
+
+(* the client completes only if the server it authenticated really processed the client's own ClientHello bytes and
+   really emitted the ServerHello .. Finished flight that the client's transcript consists of (matching conversation) *)
+Theorem client_completes_only_with_authentic_peer :
+  forall O adv cc sc, ideal2 O -> sig_pair O (hd [] (f_chain sc)) (f_key sc) ->
+  forall tr, adversary_run O adv cc sc tr ->
+    let y := sys_run O cc sc (sys_init cc sc) tr in
+    t_state (y_c y) = CLIENT_POST_HANDSHAKE -> secure O adv cc sc (y_out y) (y_c y) ->
+    exists chm ss1 outS, matching O cc sc y chm ss1 outS.
+Proof. exact client_completes_only_with_authentic_peer_lemma. Qed.
+Print Assumptions client_completes_only_with_authentic_peer.
+
+(* whatever the adversary delivered: at every position where the honest exchange (the client's hello, then the flight
+   the server emitted) has the framed message a, a completed client hashed a - a handshake message altered on its way
+   to the client, or a ClientHello altered on its way to the server, prevents the client's completion - UNLESS the
+   adversary knows the authenticating key material (premise secure) *)
+Theorem tamper_detected_two_party :
+  forall O adv cc sc, ideal2 O -> sig_pair O (hd [] (f_chain sc)) (f_key sc) ->
+  forall tr, adversary_run O adv cc sc tr ->
+    let y := sys_run O cc sc (sys_init cc sc) tr in
+    t_state (y_c y) = CLIENT_POST_HANDSHAKE -> secure O adv cc sc (y_out y) (y_c y) ->
+    exists chm ss1 outS, matching O cc sc y chm ss1 outS /\
+      forall pre a a' post post',
+        chm ++ concat (map snd outS) = pre ++ a ++ post -> k_tr (the_ks (y_c y)) = pre ++ a' ++ post' ->
+        framed a -> framed a' -> a = a'.
+Proof. exact tamper_detected_two_party_lemma. Qed.
+Print Assumptions tamper_detected_two_party.
+
+(* a client whose hello shares no option with the server never completes with that server, in any adversary run *)
+Theorem no_common_option_two_party :
+  forall O adv cc sc, ideal2 O -> sig_pair O (hd [] (f_chain sc)) (f_key sc) ->
+  forall tr, adversary_run O adv cc sc tr ->
+    (forall r v, o_parse_ch O (client_hello_tr O cc r) = POk v -> no_common sc v) ->
+    let y := sys_run O cc sc (sys_init cc sc) tr in
+    ~ (t_state (y_c y) = CLIENT_POST_HANDSHAKE /\ secure O adv cc sc (y_out y) (y_c y)).
+Proof. exact no_common_option_two_party_lemma. Qed.
+Print Assumptions no_common_option_two_party.
+
+(* non-vacuity of the structural premises *)
+Theorem two_party_premises_satisfiable : exists O, ideal2 O /\ sig_pair O [77] [77].
+Proof. exact (ex_intro _ toyO3 (conj toy3_ideal2 toy3_pair)). Qed.
+Print Assumptions two_party_premises_satisfiable.
